@@ -188,16 +188,10 @@ def props_split(ck):
     return False
 
 
-def run(ck):
-    ck.trusted += [
-        "C12: the PromQL engine, the participle parsers, fastjson/protobuf decoders and database/sql are exercised by the harness, not modelled",
-        "C12: the LTS abstracts label maps, message text and float values; one LTS message per rows.Next(); real-time bounds are not proved (termination = no infinite schedule)",
-        "C12: the database answers inside the WHERE window of the statement (rows outside it are not generated); allocation of more than 2^27 float64 is modelled as a failure",
-        "C12: goroutine census (runtime.Stack) and the child-process crash/hang detection of harness/cmd/readfuzz",
-        "C12: go/ast translator translate/goinv_reader (recover status, operation census by name-based call following inside a package)",
-    ]
+def gen_and_props(ck):
     # ---- 1. translator
-    rc, out = vcheck.sh([os.path.join(ROOT, "translate", "gen_goroutines_reader")], cwd=ROOT, timeout=300)
+    rc, out = vcheck.sh([os.path.join(ROOT, "translate", "gen_goroutines_reader")], cwd=ROOT, timeout=300,
+                        env=dict(os.environ, C12GEN_LOCKED="1"))   # we hold the lock ourselves
     ck.checker_cmds.append("translate/gen_goroutines_reader")
     gen = os.path.join(vcheck.COQ, "gen", "GenGoroutinesReader.v")
     ck.obligation("translator gen_goroutines_reader ran on %s" % vcheck.REPO, rc == 0 and os.path.exists(gen), out[-1500:])
@@ -209,6 +203,21 @@ def run(ck):
         props_ok = props_split(ck)
     if not ck.quick() and props_ok:
         ck.coqchk(["Qryn.props.C12"])
+    return props_ok
+
+
+def run(ck):
+    ck.trusted += [
+        "C12: the PromQL engine, the participle parsers, fastjson/protobuf decoders and database/sql are exercised by the harness, not modelled",
+        "C12: the LTS abstracts label maps, message text and float values; one LTS message per rows.Next(); real-time bounds are not proved (termination = no infinite schedule)",
+        "C12: the database answers inside the WHERE window of the statement (rows outside it are not generated); allocation of more than 2^27 float64 is modelled as a failure",
+        "C12: goroutine census (runtime.Stack) and the child-process crash/hang detection of harness/cmd/readfuzz",
+        "C12: go/ast translator translate/goinv_reader (recover status, operation census by name-based call following inside a package)",
+    ]
+    # ---- 1+2. translator, theorems, coqchk: one critical section. coq/gen/GenGoroutinesReader.v is a single file of the
+    # shared Coq project; a concurrent C12 run against another tree (VERIF_REPO=<scratch>) would swap it under our feet.
+    with vcheck.Lock("c12gen"):
+        props_ok = gen_and_props(ck)
     # ---- 3. harness
     if not ck.go_build("readfuzz"):
         ck.obligation("harness readfuzz builds against %s" % vcheck.REPO, False, ck.build_out[-1500:])
